@@ -231,7 +231,7 @@ func (g *fgen) ptrSloc(et types.Type, isAlloc bool) *sloc {
 	if a, ok := et.Underlying().(*types.Array); ok {
 		return &sloc{root: rootElem, rootT: g.elemKeyName(a.Elem()), typ: a.Elem(), isAlloc: isAlloc}
 	}
-	return &sloc{root: rootBox, rootT: mangle(g.sortOf(et)), typ: et, isAlloc: isAlloc}
+	return &sloc{root: rootBox, rootT: g.boxKeyName(et), typ: et, isAlloc: isAlloc}
 }
 
 func (g *fgen) slocLeaves(sl *sloc, path []int, t types.Type, out map[string]modEntry) {
@@ -586,6 +586,20 @@ func (g *fgen) modKeys(fc *funcContract, item string) (map[string]modEntry, erro
 	if g.w.cs.ghosts[item] != nil {
 		k, _ := g.ghostKey(item)
 		out[k] = modEntry{rootGlobal, nil, nil}
+		return out, nil
+	}
+	if strings.HasPrefix(item, "cells(") && strings.HasSuffix(item, ")") {
+		// type-level: every pointer cell that holds a value of this type
+		ct, err := parseTypeString(strings.TrimSpace(item[6 : len(item)-1]))
+		if err != nil {
+			return nil, err
+		}
+		t, err := g.resolveType(ct, pkg)
+		if err != nil {
+			return nil, err
+		}
+		psl := g.ptrSloc(t, false)
+		g.slocLeaves(psl, psl.path, psl.typ, out)
 		return out, nil
 	}
 	elems := false
